@@ -186,6 +186,8 @@ def function_twins(rng, rel):
         comps_b = [pv.Composition(p=1.0 - x, type="weight") for x in xs]
     else:
         comps_b = [c.to_molar(mix) for c in comps_a]
+        if rng.random() < 0.4:        # the basis is a property of each point, not of the curve
+            comps_b = [c if (j + rng.randrange(2)) % 2 else c.to_molar(mix) for j, c in enumerate(comps_a)]
 
     def curve(p, comps):
         c = p.ideal_diffusion_curve(T, comps, permeate_temperature=a["Tperm"], permeate_pressure=a["pperm"],
